@@ -204,11 +204,13 @@ func (client *client) isInClose() bool {
 
 // Close 关闭client
 func (client *client) Close() {
-	if atomic.LoadInt32(&client.isClosed) == 1 || atomic.LoadPointer(&client.topic) == nil {
+	if atomic.LoadInt32(&client.isClosed) == 1 {
 		return
 	}
-	topic := client.getTopic()
-	client.q.closeTopic(topic)
+	// a client that never subscribed has no topic to close, but is closed all the same
+	if atomic.LoadPointer(&client.topic) != nil {
+		client.q.closeTopic(client.getTopic())
+	}
 	close(client.done)
 	atomic.StoreInt32(&client.isCloseing, 1)
 	client.wg.Wait()
